@@ -1000,7 +1000,9 @@ func (c *Conn) writeRequest(ctx *Ctx) error {
 
 	c.bwLck.Lock()
 
-	_, err := fr.WriteTo(c.bw)
+	// Continued in CONTINUATION frames when the header list is larger than the
+	// largest frame the server accepts. bwLck keeps the frames together.
+	_, err := fr.writeHeaderBlockTo(c.bw, int(atomic.LoadUint32(&c.maxFrameSize)))
 	if err == nil {
 		err = c.bw.Flush()
 	}
